@@ -228,6 +228,26 @@ fn make_coll(src: &mut Src, pool: &[Coll], tag: f64, rep: &mut Report) -> Coll {
                 n += src.below(12);
             }
             let mut specs: Vec<DSpec> = vec![];
+            // 4% of the custom collectors are large: two descriptors of one name (agreeing or disagreeing in help) with 16-40 descriptors
+            // of other names between them
+            if src.chance(10) {
+                let mut first = derive(src);
+                if src.chance(128) {
+                    // half of them under a name the registry has never seen
+                    first.name = format!("big_{}", pool.len());
+                }
+                let mut last = sibling(src, &first);
+                if src.chance(170) {
+                    last.help = HELPS.iter().find(|h| **h != first.help).unwrap().to_string();
+                }
+                specs.push(first);
+                for k in 0..16 + src.below(25) {
+                    specs.push(DSpec { name: format!("filler_{}", k), help: "h".into(), consts: BTreeMap::new(), vars: BTreeSet::new(), rev: false });
+                }
+                specs.push(last);
+                rep.class("large-collector(two descriptors of one name, 16-40 others between)");
+                return Coll::Custom(Custom { descs: specs.iter().map(|s| s.desc()).collect(), specs, tag });
+            }
             for i in 0..n {
                 let s = if i == 0 && src.chance(170) {
                     // fresh: a name/value combination not used so far if possible
